@@ -17,6 +17,8 @@ func init() {
 }
 
 func runC08(e *Engine, r *Report) {
+	// borrowed mechanisms (session 6, round 8): a snapshot the log was compacted behind is durable: header written before the file is fsynced (C14/C16)
+	borrow(e, r, "C14", "MPT-writer-close")
 	isCall := func(f *ssa.Function) func(ssa.Instruction) bool {
 		return func(in ssa.Instruction) bool {
 			c, ok := in.(*ssa.Call)
